@@ -189,6 +189,7 @@ func runC14(r *Run) {
 		}
 		qCtx := query_context.NewContext(q)
 		wantBytes, _ := qCtx.Q().Pack() // what the plugin is asked to forward
+		meter := startStallMeter()
 		ctx, cancel := context.WithCancel(context.Background())
 		type ret struct {
 			err  error
@@ -342,6 +343,11 @@ func runC14(r *Run) {
 			}
 		}
 		cancel()
+		if stall := meter.Stop(); stall > 20*time.Millisecond {
+			// the arrival order is enforced by short waits between releases: a stall of this size may have reordered it
+			r.Count("case-dropped:machine-stalled")
+			continue
+		}
 		// the buffers the helpers hold must still be the query when they are released
 		for _, cl := range calls {
 			if cl.atRelease != nil && !bytes.Equal(cl.atRelease, wantBytes) {
